@@ -579,7 +579,7 @@ func c16Run(c *Case) {
 func init() {
 	register(&Prop{
 		ID: "C16", Level: "exploration",
-		Rule:          "enumerated: 13 methods + 3 builtins x 32 receiver values (all 10 kinds) x 9 argument lists (0-3 arguments of several kinds): result vs reference, and never a panic; 14 methods called directly on 23 receiver expressions that were never stored (a character of a string, a call result, a parenthesised expression, a literal, a method result): never a crash, closed-form results for the string cases; 11 programs applying one call site to receivers of several kinds in turn; num() of 60 digit strings of 15-28 digits against the same digits read as a JSON number; sampled: receivers/arguments supplied through the input document so every UTF-8 string is reachable (multi-byte, separators at the ends / repeated / overlapping / empty / longer than the subject; doubles at and around halves, beyond 2^53, tiny; objects and key lists with present/absent/repeated keys and the method names length/pluck; numeric and non-numeric spellings for num) compared with reference functions; algebraic laws checked on the implementation's output alone (split pieces/join, floor<=x<=ceil, round half away, case idempotence, byte length, pluck key set (also for keys with dots over nested objects: a key names an own key, never a path) and immutability, also over 2-5 records in one run whose results are each modified after the call, num(str(x))==x). Non-trivial = non-ASCII / separator at an end or empty / non-integral number / absent key; distinct by call+document. String literals of the program holding bytes that are no valid UTF-8 (10 strings x upper / lower): length counts bytes, those bytes stay as they are, split(\"\") gives the pieces back. num() of whole numbers of 15-28 digits (as string, of its own result, of the number itself) is that number.",
+		Rule:          "enumerated: 13 methods + 3 builtins x 32 receiver values (all 10 kinds) x 9 argument lists (0-3 arguments of several kinds): result vs reference, and never a panic; 14 methods called directly on 23 receiver expressions that were never stored (a character of a string, a call result, a parenthesised expression, a literal, a method result): never a crash, closed-form results for the string cases; 11 programs applying one call site to receivers of several kinds in turn; num() of 60 digit strings of 15-28 digits against the same digits read as a JSON number; sampled: receivers/arguments supplied through the input document so every UTF-8 string is reachable (multi-byte, separators at the ends / repeated / overlapping / empty / longer than the subject; doubles at and around halves, beyond 2^53, tiny; objects and key lists with present/absent/repeated keys and the method names length/pluck; numeric and non-numeric spellings for num) compared with reference functions; algebraic laws checked on the implementation's output alone (split pieces/join, floor<=x<=ceil, round half away, case idempotence, byte length, pluck key set (also for keys with dots over nested objects: a key names an own key, never a path) and immutability, also over 2-5 records in one run whose results are each modified after the call, num(str(x))==x). Non-trivial = non-ASCII / separator at an end or empty / non-integral number / absent key; distinct by call+document. String literals of the program holding bytes that are no valid UTF-8 (10 strings x upper / lower): length counts bytes, those bytes stay as they are, split(\"\") gives the pieces back. num() of whole numbers of 15-28 digits (as string, of its own result, of the number itself) is that number. U+FFFD as a character; 4 hand-computed programs: results of equal split() calls are independent arrays.",
 		NumCases:      c16Cases,
 		Run:           c16Run,
 		MinConclusive: func(tier string) int { return 5000 },
